@@ -289,11 +289,11 @@ def scenario (name : String) : Option (List Act × List String) :=
   | "driver_step_empty" => some ([mkDriver, drive], ["drv"])
   | "driver_stop_step" => some ([mkDriver, stop, drive, drive], ["drv"])
   | "udp_async_attach" => some ([mkDriver, mk false "b" udpCtor, consume true "s" "b" .udpAsync,
-      opOn "s" (query .getsockname)], ["s", "b", "drv"])
+      opOn "s" (query .getsockname), drive], ["s", "b", "drv"])
   | "tcp_async_attach" => some ([mkDriver, mk false "b" tcpCtor, consume true "s" "b" .tcpAsync,
-      opOn "s" (query .getsockname), opOn "s" (query .getpeername)], ["s", "b", "drv"])
+      opOn "s" (query .getsockname), opOn "s" (query .getpeername), drive], ["s", "b", "drv"])
   | "acceptor_async_attach" => some ([mkDriver, mk false "a" acceptorCtor, consume true "s" "a" .acceptorAsync,
-      opOn "s" (query .getsockname)], ["s", "a", "drv"])
+      opOn "s" (query .getsockname), drive], ["s", "a", "drv"])
   | "tcp_async_recv" => some ([mkDriver, mk false "s" tcpCtor, attach "s" .tcp 1 0, drive, drive], ["s", "drv"])
   | "tcp_async_send" => some ([mkDriver, mk false "s" tcpCtor, attach "s" .tcp 0 2, drive, drive, drive], ["s", "drv"])
   | "udp_async_recv" => some ([mkDriver, mk false "s" udpCtor, attach "s" .udp 1 0, drive, drive], ["s", "drv"])
